@@ -22,13 +22,13 @@ var idQ = &Q{K: "id"}
 
 // ---- AST of fragment F ----
 type Q struct {
-	K       string // id c pipe comma empty iter index if alt try arr reduce foreach label break bind var call0 binop
-	A, B, C *Q     // sub-queries (meaning depends on K)
-	D       *Q     // foreach extract / reduce update
-	V       any    // constant / index key
-	N       int    // variable or label name
-	F       string // native name (call0: error|length ; binop: add ...)
-	SA, SB  *Q     // binop operands (restricted kinds: id c index iter empty call0)
+	K       string  // id c pipe comma empty iter index if alt try arr reduce foreach label break bind var call0 binop
+	A, B, C *Q      // sub-queries (meaning depends on K)
+	D       *Q      // foreach extract / reduce update
+	V       any     // constant / index key
+	N       int     // variable or label name
+	F       string  // native name (call0: error|length ; binop: add ...)
+	SA, SB  *Q      // binop operands (restricted kinds: id c index iter empty call0)
 	Ps      []Param // def: formal parameters
 	Args    []*Q    // callf: actual parameters
 	NoElse  bool    // if: written without an else clause (e.Else == nil in query.go); C is then `.`
@@ -43,11 +43,18 @@ type SPart struct {
 	Q   *Q
 }
 
+// the formats whose natives are modelled (formatToFunc): the call0 name of the native, and back
+var formatFn = map[string]string{"@html": "tohtml", "@uri": "touri", "@csv": "tocsv", "@tsv": "totsv", "@sh": "tosh", "@base64": "tobase64"}
+var fnFormat = map[string]string{"tohtml": "@html", "touri": "@uri", "tocsv": "@csv", "totsv": "@tsv", "tosh": "@sh", "tobase64": "@base64"}
+var formatNames = []string{"@html", "@uri", "@csv", "@tsv", "@sh", "@base64"}
+
 // compileString: "a\(q)b" is "a" + (q | tostring) + "b" (left-nested +; tojson with @json)
 func (q *Q) strDesugar() *Q {
 	f := "tostring"
 	if q.F == "@json" {
 		f = "tojson"
+	} else if g, ok := formatFn[q.F]; ok {
+		f = g // @html "..\(q).." applies _tohtml to every interpolated value (compileFormat -> compileString(str, f))
 	}
 	var t *Q
 	for _, p := range q.Parts {
@@ -138,6 +145,23 @@ func (p *Pat) text(r *Rng) string {
 		return "{" + strings.Join(xs, ", ") + "}"
 	}
 	panic(p.K)
+}
+
+// reduce / foreach: `as $vN` (Pat == nil) or `as PATTERN` (a destructuring pattern that is not a plain variable)
+var foldPatCount int // statistics: reduce / foreach nodes with a destructuring pattern printed so far
+
+func (q *Q) foldPatSexp() string {
+	if q.Pat == nil {
+		return fmt.Sprint(q.N)
+	}
+	foldPatCount++
+	return q.Pat.sexp()
+}
+func (q *Q) foldPatText(r *Rng) string {
+	if q.Pat == nil {
+		return fmt.Sprintf("$v%d", q.N)
+	}
+	return q.Pat.text(r)
 }
 
 // the variables a pattern binds
@@ -316,12 +340,12 @@ func (q *Q) Sexp() string {
 		}
 		return "(try " + q.A.Sexp() + ")"
 	case "reduce":
-		return fmt.Sprintf("(reduce %s %d %s %s)", q.A.Sexp(), q.N, q.B.Sexp(), q.C.Sexp())
+		return fmt.Sprintf("(reduce %s %s %s %s)", q.A.Sexp(), q.foldPatSexp(), q.B.Sexp(), q.C.Sexp())
 	case "foreach":
 		if q.D != nil {
-			return fmt.Sprintf("(foreach %s %d %s %s %s)", q.A.Sexp(), q.N, q.B.Sexp(), q.C.Sexp(), q.D.Sexp())
+			return fmt.Sprintf("(foreach %s %s %s %s %s)", q.A.Sexp(), q.foldPatSexp(), q.B.Sexp(), q.C.Sexp(), q.D.Sexp())
 		}
-		return fmt.Sprintf("(foreach %s %d %s %s)", q.A.Sexp(), q.N, q.B.Sexp(), q.C.Sexp())
+		return fmt.Sprintf("(foreach %s %s %s %s)", q.A.Sexp(), q.foldPatSexp(), q.B.Sexp(), q.C.Sexp())
 	case "label":
 		return fmt.Sprintf("(label %d %s)", q.N, q.A.Sexp())
 	case "break":
@@ -346,6 +370,8 @@ func (q *Q) Sexp() string {
 		return fmt.Sprintf("(var %d)", q.N)
 	case "call0":
 		return "(call0 " + q.F + ")"
+	case "call1": // a native with one argument: error(A)
+		return "(call1 " + q.F + " " + q.A.Sexp() + ")"
 	case "binop":
 		return "(binop " + q.F + " " + q.SA.Sexp() + " " + q.SB.Sexp() + ")"
 	case "def":
@@ -368,6 +394,9 @@ func (q *Q) Sexp() string {
 		}
 		return s + ")"
 	case "callf":
+		if name, ok := builtinNames[q.N]; ok {
+			builtinUsed[bkey(name, len(q.Args))] = true
+		}
 		s := fmt.Sprintf("(callf %d", q.N)
 		for _, a := range q.Args {
 			s += " " + a.Sexp()
@@ -440,7 +469,7 @@ func (q *Q) P(r *Rng) string {
 			return "(" + valJq(q.V) + ")"
 		}
 		return valJq(q.V)
-	case "empty", "var", "call0", "break", "arr", "callf", "obj", "str":
+	case "empty", "var", "call0", "call1", "break", "arr", "callf", "obj", "str":
 		return q.T(r)
 	case "iter", "index", "indexq", "slice":
 		if q.A.K == "id" {
@@ -525,19 +554,28 @@ func (q *Q) T(r *Rng) string {
 		if q.B != nil {
 			return "try " + q.A.P(r) + " catch " + q.B.P(r)
 		}
-		if r.Chance(1, 2) {
+		// the optional suffix on every term form: X? is try X (compileTermSuffix); terms are written without
+		// parentheses ([q]?, {..}?, $v?, "a\(q)"?, f(a)?, .a?, .[]?, .[a:b]?, reduce ..?, foreach ..?, if .. end?)
+		switch r.Intn(3) {
+		case 0:
 			return "(" + q.A.T(r) + ")?"
+		case 1:
+			switch q.A.K {
+			case "reduce", "foreach", "if":
+				return q.A.T(r) + "?"
+			}
+			return q.A.P(r) + "?"
 		}
 		return "try " + q.A.P(r)
 	case "arr":
 		return "[" + q.A.T(r) + "]"
 	case "reduce":
-		return fmt.Sprintf("reduce %s as $v%d (%s; %s)", q.A.P(r), q.N, q.B.T(r), q.C.T(r))
+		return fmt.Sprintf("reduce %s as %s (%s; %s)", q.A.P(r), q.foldPatText(r), q.B.T(r), q.C.T(r))
 	case "foreach":
 		if q.D != nil {
-			return fmt.Sprintf("foreach %s as $v%d (%s; %s; %s)", q.A.P(r), q.N, q.B.T(r), q.C.T(r), q.D.T(r))
+			return fmt.Sprintf("foreach %s as %s (%s; %s; %s)", q.A.P(r), q.foldPatText(r), q.B.T(r), q.C.T(r), q.D.T(r))
 		}
-		return fmt.Sprintf("foreach %s as $v%d (%s; %s)", q.A.P(r), q.N, q.B.T(r), q.C.T(r))
+		return fmt.Sprintf("foreach %s as %s (%s; %s)", q.A.P(r), q.foldPatText(r), q.B.T(r), q.C.T(r))
 	case "label":
 		return fmt.Sprintf("label $l%d | %s", q.N, q.A.P(r))
 	case "break":
@@ -563,22 +601,27 @@ func (q *Q) T(r *Rng) string {
 	case "var":
 		return fmt.Sprintf("$v%d", q.N)
 	case "call0":
+		if f, ok := fnFormat[q.F]; ok {
+			return f // a format without a string: compileFormat(format, nil) = the call of its native
+		}
 		return q.F
+	case "call1":
+		return q.F + "(" + q.A.T(r) + ")"
 	case "binop":
 		return q.SA.P(r) + " " + opSym[q.F] + " " + q.SB.P(r)
 	case "def":
 		if len(q.Ps) == 0 {
-			return fmt.Sprintf("def f%d: %s; %s", q.N, q.A.T(r), q.B.T(r))
+			return fmt.Sprintf("def %s: %s; %s", fname(q.N), q.A.T(r), q.B.T(r))
 		}
 		ps := make([]string, len(q.Ps))
 		for i, p := range q.Ps {
 			if p.Val {
 				ps[i] = fmt.Sprintf("$v%d", p.N)
 			} else {
-				ps[i] = fmt.Sprintf("f%d", p.N)
+				ps[i] = fname(p.N)
 			}
 		}
-		return fmt.Sprintf("def f%d(%s): %s; %s", q.N, strings.Join(ps, "; "), q.A.T(r), q.B.T(r))
+		return fmt.Sprintf("def %s(%s): %s; %s", fname(q.N), strings.Join(ps, "; "), q.A.T(r), q.B.T(r))
 	case "obj":
 		es := make([]string, len(q.Ents))
 		for i, e := range q.Ents {
@@ -587,13 +630,16 @@ func (q *Q) T(r *Rng) string {
 		return "{" + strings.Join(es, ", ") + "}"
 	case "callf":
 		if len(q.Args) == 0 {
-			return fmt.Sprintf("f%d", q.N)
+			if builtinNames[q.N] == "recurse" && r.Chance(1, 2) {
+				return ".." // `..` is the call recurse/0 (parser.go.y)
+			}
+			return fname(q.N)
 		}
 		as := make([]string, len(q.Args))
 		for i, a := range q.Args {
 			as[i] = a.T(r)
 		}
-		return fmt.Sprintf("f%d(%s)", q.N, strings.Join(as, "; "))
+		return fmt.Sprintf("%s(%s)", fname(q.N), strings.Join(as, "; "))
 	}
 	panic(q.K)
 }
@@ -608,6 +654,10 @@ func (q *Q) msgfree() bool {
 		return false
 	case "call0":
 		return q.F == "error"
+	case "reduce", "foreach":
+		if q.Pat != nil { // a source value the pattern does not match raises an error with a message
+			return false
+		}
 	case "callf":
 		return false
 	case "obj":
@@ -679,7 +729,8 @@ func leaves(s scope, small bool) []*Q {
 			&Q{K: "binop", F: "sub", SA: &Q{K: "iter", A: idQ}, SB: &Q{K: "index", A: idQ, V: 0}},
 			&Q{K: "binop", F: "lt", SA: &Q{K: "index", A: idQ, V: 0}, SB: &Q{K: "iter", A: idQ}})
 	} else {
-		out = append(out, &Q{K: "call0", F: "length"})
+		out = append(out, &Q{K: "call0", F: "length"}, &Q{K: "call0", F: "keys"}, &Q{K: "call0", F: "type"},
+			&Q{K: "call0", F: []string{"tohtml", "touri", "tocsv", "totsv", "tosh", "tobase64"}[len(s.vars)%6]})
 	}
 	return out
 }
@@ -798,6 +849,15 @@ func enum(n int, s scope, r *Rng) []*Q {
 					}
 					for _, c := range cvs {
 						out = append(out, &Q{K: "reduce", A: a, N: 0, B: b, C: c}, &Q{K: "foreach", A: a, N: 0, B: b, C: c})
+						// destructuring patterns in reduce / foreach (a failing pattern raises inside the fold)
+						switch (len(out) / 2) % 6 {
+						case 0:
+							out = append(out, &Q{K: "reduce", A: a, Pat: &Pat{K: "a", Elems: []*Pat{{K: "v", N: 0}}}, B: b, C: c})
+						case 2:
+							out = append(out, &Q{K: "foreach", A: a, Pat: &Pat{K: "o", Ents: []PEnt{{Kind: "k", Key: "a", P: &Pat{K: "v", N: 0}}}}, B: b, C: c})
+						case 4:
+							out = append(out, &Q{K: "foreach", A: a, Pat: &Pat{K: "a", Elems: []*Pat{{K: "v", N: 1}, {K: "v", N: 0}}}, B: b, C: c, D: &Q{K: "var", N: 1}})
+						}
 					}
 				}
 			}
@@ -876,6 +936,32 @@ func nearFold(r *Rng) *Q {
 	return &Q{K: "arr", A: t}
 }
 
+// reduce / foreach with a destructuring pattern: a source (often yielding values of the shapes the patterns select
+// from), the pattern (distinct variables) and the scope of the update / extract
+func randFoldPat(r *Rng, budget int, s scope) (*Q, *Pat, scope) {
+	next := []int{0, 10}[r.Intn(2)]
+	pat := randPat(r, 2, &next, true)
+	bs := s
+	for _, v := range pat.vars() {
+		bs = bs.withVar(v)
+	}
+	pool := func() any { return destructPool[r.Intn(len(destructPool))] }
+	var src *Q
+	switch r.Intn(5) {
+	case 0:
+		src = &Q{K: "c", V: pool()}
+	case 1:
+		src = &Q{K: "comma", A: &Q{K: "c", V: pool()}, B: randQ(r, budget, s)}
+	case 2:
+		src = &Q{K: "iter", A: &Q{K: "c", V: []any{pool(), pool()}}}
+	case 3:
+		src = &Q{K: "comma", A: &Q{K: "c", V: pool()}, B: &Q{K: "c", V: pool()}}
+	default:
+		src = randQ(r, budget, s)
+	}
+	return src, pat, bs
+}
+
 func randQ(r *Rng, budget int, s scope) *Q {
 	if budget <= 1 || r.Chance(1, 6) {
 		ls := leaves(s, false)
@@ -922,6 +1008,10 @@ func randQ(r *Rng, budget int, s scope) *Q {
 			}
 			return q
 		}
+	}
+	if r.Chance(1, 25) {
+		// error(a): a native with one argument; the payload is the output of a (a ValueError, compared exactly)
+		return &Q{K: "call1", F: "error", A: randQ(r, max(1, b-1), s)}
 	}
 	if r.Chance(1, 9) {
 		return randObj(r, b, s)
@@ -1008,11 +1098,23 @@ func randQ(r *Rng, budget int, s scope) *Q {
 		x, y := split()
 		y1 := 1 + r.Intn(max(1, y))
 		n := r.Intn(2)
+		if r.Chance(1, 3) {
+			src, pat, bs := randFoldPat(r, x, s)
+			return &Q{K: "reduce", A: src, Pat: pat, B: randQ(r, y1, s), C: randQ(r, max(1, y-y1), bs)}
+		}
 		return &Q{K: "reduce", A: randQ(r, x, s), N: n, B: randQ(r, y1, s), C: randQ(r, max(1, y-y1), s.withVar(n))}
 	case 12:
 		x, y := split()
 		y1 := 1 + r.Intn(max(1, y))
 		n := r.Intn(2)
+		if r.Chance(1, 3) {
+			src, pat, bs := randFoldPat(r, x, s)
+			q := &Q{K: "foreach", A: src, Pat: pat, B: randQ(r, y1, s), C: randQ(r, max(1, y-y1), bs)}
+			if r.Chance(1, 2) {
+				q.D = randQ(r, 1+r.Intn(3), bs)
+			}
+			return q
+		}
 		q := &Q{K: "foreach", A: randQ(r, x, s), N: n, B: randQ(r, y1, s), C: randQ(r, max(1, y-y1), s.withVar(n))}
 		if r.Chance(1, 2) {
 			q.D = randQ(r, 1+r.Intn(3), s.withVar(n))
@@ -1198,6 +1300,9 @@ func randIndexing(r *Rng, budget int, s scope) *Q {
 // an interpolated string: literal segments and 1..3 interpolated queries, optionally with @text / @json
 func randStr(r *Rng, budget int, s scope) *Q {
 	q := &Q{K: "str", F: []string{"", "", "@text", "@json"}[r.Intn(4)]}
+	if r.Chance(1, 3) {
+		q.F = formatNames[r.Intn(len(formatNames))]
+	}
 	n := 1 + r.Intn(3)
 	lits := []string{"a", "b", "xy", " "}
 	if r.Chance(1, 2) {
@@ -1210,6 +1315,9 @@ func randStr(r *Rng, budget int, s scope) *Q {
 			e = &Q{K: "comma", A: &Q{K: "c", V: 1}, B: &Q{K: "c", V: "s"}}
 		case 1:
 			e = &Q{K: "id"}
+		case 2:
+			// values the formats escape / join: strings with special characters, arrays of scalars
+			e = &Q{K: "c", V: []any{"a<b&'c'>", []any{1, "x y", nil, true, "it's"}, []any{"a b,c", -2}, "a+b/c~", []any{[]any{1}}}[r.Intn(5)]}
 		default:
 			e = randQ(r, 1+r.Intn(max(1, budget/n)), s)
 		}
@@ -1378,7 +1486,9 @@ func instrSexp(in gojq.VerifInstr) string {
 	return "(unknown)"
 }
 
-func runOne(c *Ctx, code *gojq.Code, q *Q, in any) {
+func runOne(c *Ctx, code *gojq.Code, q *Q, in any) { runOneTag(c, "run", code, q, in) }
+
+func runOneTag(c *Ctx, tag string, code *gojq.Code, q *Q, in any) {
 	it := code.Run(in)
 	var outs []string
 	ending := "end"
@@ -1401,7 +1511,7 @@ func runOne(c *Ctx, code *gojq.Code, q *Q, in any) {
 			break
 		}
 	}
-	c.Emit("(run %s %s (%s) %s)", q.Sexp(), SexpVal(in), strings.Join(outs, " "), ending)
+	c.Emit("(%s %s %s (%s) %s)", tag, q.Sexp(), SexpVal(in), strings.Join(outs, " "), ending)
 }
 
 // wrappers that make a value left below the top of the stack observable (used by the focused search
@@ -1475,6 +1585,9 @@ func doProgram(c *Ctx, q *Q, r *Rng, ninputs int, seen map[string]bool) {
 	c.Emit("(code %s (%s))", key, strings.Join(xs, " "))
 	c.Count("programs")
 	c.Count("kind:" + q.K)
+	if n0 := foldPatCount; q.Sexp() != "" && foldPatCount > n0 {
+		c.Count("with:fold-pattern") // a reduce / foreach with a destructuring pattern somewhere in the program
+	}
 	if ninputs >= len(inputs) {
 		for _, in := range inputs {
 			runOne(c, code, q, in)
@@ -1532,6 +1645,12 @@ func runC01vm(c *Ctx) {
 			budget = 30 + r.Intn(30)
 		}
 		doProgram(c, randQ(r, budget, scope{}), r, 4, seen)
+	}
+	// programs that call builtins written in jq (builtins.go); last, so that the streams above keep their ordinals
+	if len(wrapOrdinals) == 0 {
+		for i := 0; i < c.N/10; i++ {
+			doBuiltinProgram(c, randBuiltinProg(r), r, seen)
+		}
 	}
 	c.Stats["programs"] = len(seen)
 }
